@@ -2,7 +2,9 @@ package main
 
 import (
 	"bytes"
+	"encoding/json"
 	"fmt"
+	"os"
 	"sort"
 	"strings"
 
@@ -310,5 +312,61 @@ func consumerErrors(c *Ctx, backends []string) bool {
 		im.Destroy()
 	}
 	c.Count("consumer-error-rounds")
+	return true
+}
+
+// keySizeLimits: the one place where the backends are known to differ (recorded finding KF-key-size-limits): a store
+// key between 32769 and 65000 bytes - the index entry of a long string - is refused by bbolt and accepted by badger.
+// Below 32768 bytes and above 65000 both agree, which is checked; the recorded difference is printed as KNOWN-FINDING
+// while it is listed, and is a violation when it is not.
+func keySizeLimits(c *Ctx) bool {
+	listed := false
+	if b, err := os.ReadFile(c.KnownPath); err == nil {
+		var kf struct {
+			Known []knownFinding `json:"known"`
+		}
+		if json.Unmarshal(b, &kf) == nil {
+			for _, k := range kf.Known {
+				if k.Property == c.Prop && k.Id == "KF-key-size-limits" {
+					listed = true
+					defer func(k knownFinding) {
+						if c.KnownHits[k.Id] {
+							fmt.Printf("KNOWN-FINDING: property=%s %s [%s]\n", c.Prop, k.What, k.Id)
+						}
+					}(k)
+				}
+			}
+		}
+	}
+	outcome := func(be string, n int) string {
+		im := NewImpl(be, c.Scratch)
+		defer im.Destroy()
+		im.db.CreateCollection("ks")
+		im.db.CreateIndex("ks", "s")
+		err := im.db.Insert("ks", d.NewDocumentOf(map[string]interface{}{"_id": fixedId(1), "s": strings.Repeat("x", n)}))
+		cnt, _ := im.db.Count(query.NewQuery("ks"))
+		if err != nil {
+			if cnt != 0 {
+				return "error with residue"
+			}
+			return "error"
+		}
+		return fmt.Sprint("ok ", cnt)
+	}
+	for _, n := range []int{1000, 30000, 32600, 33000, 40000, 64000, 66000, 80000} {
+		a, b := outcome("bbolt", n), outcome("badger-mem", n)
+		c.Evals++
+		if a == b {
+			continue
+		}
+		inRegion := n > 32768-100 && n <= 65000 && a == "error" && b == "ok 1"
+		if inRegion && listed {
+			c.KnownHits["KF-key-size-limits"] = true
+			continue
+		}
+		c.Violation(&Replay{Stream: "key-size", Case: []interface{}{J{"k": "key-size", "indexed_string_bytes": n}}, Expected: []string{"bbolt: " + a}, Actual: []string{"badger: " + b},
+			Note: "the backends disagree on a document with a long indexed string"})
+		return false
+	}
 	return true
 }
